@@ -192,8 +192,13 @@ def model_expr(case):
     return None
 
 
-def _close(a, b, rel=1e-9):
-    return abs(a - b) <= rel * max(1.0, abs(a), abs(b))
+def _close(a, b, rel=1e-9, abs_tol=0.0):
+    return abs(a - b) <= rel * max(1.0, abs(a), abs(b)) + abs_tol
+
+
+def _level_tol(v):
+    """Absolute slack for statistics of deviations: the mean of values near L is only known to an ulp of L."""
+    return 16 * 2.0 ** -53 * float(max([abs(x) for x in v] + [0.0]))
 
 
 def _cond_tol(v):
@@ -244,7 +249,8 @@ def py_checks(case, r):
             var = sum((x - m) ** 2 for x in vals) / len(vals)
             exp = [float(m), float(max(vals)), float(min(vals)), float(max(vals) - min(vals)), float(var), math.sqrt(var)]
         tol = _cond_tol(vals) if vals else 1e-9
-        if not all(_close(a, b, tol) for a, b in zip(out["pm"], exp)):
+        lt = _level_tol(vals) if vals else 0.0
+        if not all(_close(a, b, tol, lt) for a, b in zip(out["pm"], exp)):
             probs.append("getPitchMeasures = %r, definitions give %r" % (out["pm"], exp))
     if "rms" in out:
         exp = math.sqrt(sum(x * x for x in v) / len(v))
@@ -259,7 +265,7 @@ def py_checks(case, r):
             m = sum(z) / n
             var = sum((x - m) ** 2 for x in z) / (n - 1)
             tol = _cond_tol(v)
-            if abs(float(m)) > tol or abs(float(var) - 1.0) > tol:
+            if abs(float(m)) > tol or abs(float(var) - 1.0) > tol:      # (a constant series has no z-scores: znormalizeData raises)
                 probs.append("z-normalised series has mean %r and sample variance %r" % (float(m), float(var)))
             order_in = sorted(range(n), key=lambda i: (v[i], i))
             for a, b in zip(order_in, order_in[1:]):
